@@ -905,6 +905,15 @@ func c15Analyse(repo string, sec *c15Sec) (*c15Sect, error) {
 		}
 		c15FileCache[path] = cf
 	}
+	r, err := c15AnalyseFile(repo, sec, cf)
+	if err != nil {
+		return nil, err
+	}
+	c15SectCache[key] = r
+	return r, nil
+}
+
+func c15AnalyseFile(repo string, sec *c15Sec, cf *c15File) (*c15Sect, error) {
 	w := &c15Walker{cf: cf, sec: sec, byGo: map[string]*c15JField{}, byPath: map[string]*c15JField{},
 		alias: map[string]*c15Alias{}, durFuncs: map[string]bool{}, resets: map[string]string{}}
 	if err := cf.flatten(sec.jsonType, "", "", "", &w.fields); err != nil {
@@ -951,9 +960,7 @@ func c15Analyse(repo string, sec *c15Sec) (*c15Sect, error) {
 			}
 		}
 	}
-	r := &c15Sect{cf: cf, w: w, defs: defs, afd: afd, sfd: sfd}
-	c15SectCache[key] = r
-	return r, nil
+	return &c15Sect{cf: cf, w: w, defs: defs, afd: afd, sfd: sfd}, nil
 }
 
 // the load rule (Coq term) and kind a member ends up with in the table
@@ -987,6 +994,10 @@ func genConfigSchemas(repo string) (string, error) {
 			return "", err
 		}
 		cf, w, defs, afd, sfd := an.cf, an.w, an.defs, an.afd, an.sfd
+		customTr, err := c15TranslateCustoms(repo, sec)
+		if err != nil {
+			return "", err
+		}
 		vtxt, err := c15ValidateText(cf, sec)
 		if err != nil {
 			return "", err
@@ -1042,6 +1053,8 @@ func genConfigSchemas(repo string) (string, error) {
 				cp = jf.scfg
 			}
 			switch {
+			case customTr.defs[id] != "":
+				def = customTr.defs[id]
 			case c15CustomDefaults[id] != "":
 				def = "(" + c15CustomDefaults[id] + ")"
 			case jf.kind == "KGroup":
